@@ -23,17 +23,21 @@ if ! cargo build --release --offline -p "$pkg" >"$log" 2>&1; then
 fi
 rm -f "$log"
 cd "$here" || exit 2
-# Secondary stage for C02/C03: the cfg(windows) threaded communicator, extracted
-# at build time into the wincheck crate and run over real pipes.  A build failure
-# of that crate (Windows-only source that no longer compiles in isolation) skips
-# the stage with a note; it never turns into a verdict.
+# Secondary stages on the cfg(windows) code, extracted at build time into the
+# wincheck crate: the threaded communicator run over real pipes (C02, C03, C04)
+# and the environment-block builder against a reference model (C06).  A build
+# failure of that crate (Windows-only source that no longer compiles in
+# isolation) skips the stage with a note; it never turns into a verdict.
 win_stage() {
   case "$id" in
-    C02|C03)
+    C02|C03|C04|C06)
       if ( cd "$here/harness" && cargo build --release --offline -p wincheck >/dev/null 2>&1 ); then
+        if [ "$id" = C06 ]; then
+          "$here/harness/target/release/wincheck" stage envblock "$mode"; return $?
+        fi
         "$here/harness/target/release/wincheck" stage wincomm "$id" "$mode"; return $?
       else
-        echo "NOTE property=$id win_raw stage skipped: extracted Windows communicator does not build" >&2
+        echo "NOTE property=$id windows-variant stage skipped: extracted Windows code does not build" >&2
       fi ;;
   esac
   return 0
@@ -53,7 +57,7 @@ case "$mode" in
     esac
     exit $rc ;;
   replay)
-    if [ -n "$path" ] && grep -q '"engine": "win_raw"' "$path" 2>/dev/null; then
+    if [ -n "$path" ] && grep -q '"engine": "win_\(raw\|env\)"' "$path" 2>/dev/null; then
       ( cd "$here/harness" && cargo build --release --offline -p wincheck >/dev/null 2>&1 ) || exit 2
       exec "$here/harness/target/release/wincheck" replay "$id" "$path"
     fi
